@@ -221,4 +221,6 @@ def main(argv):
 
 
 if __name__ == "__main__":
-    sys.exit(main(sys.argv[1:]))
+    rc = main(sys.argv[1:])
+    H.cover_dump()
+    sys.exit(rc)
